@@ -93,6 +93,43 @@ CHECKS["C10"] = dict(
          "histories); internal transitions (split/rebuild causes) counted by a harness-side probe subclass, never used for verdicts.",
     technique="TLA+ contract spec + TLC; graph-guided exhaustive history walks (M3'); TLC trace validation",
     design="3/C10")
+CHECKS["C06"] = dict(
+    level="exploration",
+    text="SpaceAlgebra.tla holds exact integer lattice models of R^n, SO(2) (k pi/N), SO(3) (the 24 Hurwitz unit quaternions), "
+         "time, discrete, torus, SE(2), SE(3) and nested weighted compounds; TLC checks the metric laws on the model over all "
+         "pairs/triples and emits every lattice input with its expected distance (M3); the real distance / equalStates / "
+         "getMaximumExtent are compared on ~100k (0.8M) cases; for spaces without an exact model (Moebius, Klein bottle, sphere, "
+         "Dubins, Reeds-Shepp, wrappers, random/near-coincident/seam/antipodal points) recorded fixed-point observations are "
+         "validated by TLC against SpaceLaws.tla - exactly the laws each space claims through isMetricSpace()/hasSymmetricDistance().",
+    note="Off the lattice only the laws are judged, with each space's own resolution (Dubins 2e-6, SO(3) 4.5e-5, float sphere "
+         "1e-4) as tolerance; compound weights strictly positive; bounded time only for the extent clause.",
+    technique="TLA+ lattice model + TLC; model-generated case replay; TLC validation of recorded law observations",
+    design="3/C06-C08")
+CHECKS["C07"] = dict(
+    level="exploration",
+    text="The same lattice models give exact interpolants for t, s, u in eighths (endpoints, in-bounds, aliasing, "
+         "re-parameterisation, geodesic proportionality checked by TLC on the model; SO(2) antipodal ties admit either arc); "
+         "~200k (1.4M) emitted cases are compared with the real interpolate; recorded probes of every shipped space and "
+         "nested compound are validated by TLC against SpaceLaws.tla (re-parameterisation and proportionality only for the "
+         "spaces the property lists).",
+    note="Off the lattice: laws only, fixed-point observations with per-space tolerance; discrete/hybrid spaces exempt from the "
+         "continuity laws as in the library's own sanity checks.",
+    technique="TLA+ lattice model + TLC; model-generated case replay; TLC validation of recorded law observations",
+    design="3/C06-C08")
+CHECKS["C09"] = dict(
+    level="model_checking",
+    text="StateLayout.tla enumerates space shapes (1619 / 3575 trees of RV, SO2, SO3, Time, Discrete, SE2/SE3, weighted compounds, "
+         "root wrapper) and computes signature, serialization layout, value order and the copyStateData transfer between all "
+         "shape pairs; every shape/pair is replayed on real spaces (byte image at expected offsets, copy/clone/serialize/reals "
+         "round trips, partial copies). PlannerDataGraph.tla models vertices/starts/goals/edges with index renumbering; every "
+         "edge of its graph is replayed on base and control PlannerData and recorded executions are validated by TLC. "
+         "Storage.tla models archives as field sequences with truncation, wrong marker, foreign archive and substituted space; "
+         "its 49 fault scenarios drive byte-level runs: every byte offset of every archive (4.9 M / 16.8 M truncations) must be "
+         "rejected and reported, never silently accepted, never crash.",
+    note="Wrapper at the root only; Boost's archive header is one opaque field; 8-byte marker/count widths are x86-64 facts; "
+         "harness built without ASan to fit the quick budget.",
+    technique="TLA+ specs + TLC; model-generated case and state-graph replay; fault enumeration driven by the spec; TLC trace validation",
+    design="3/C09")
 CHECKS["C01"] = dict(
     level="exploration",
     text="TLC enumerates every planning configuration of the 3x3 cell world up to symmetry (5478: obstacle layout x start x "
